@@ -310,6 +310,22 @@ pub(crate) mod alloc {
             // Compute the challenge 'u'
             let u_challenge = transcript.challenge_scalar(b"u_challenge");
 
+            // verification seam: expose the derived challenges
+            #[cfg(plonk_verif)]
+            crate::verif::record_challenges(&[
+                beta,
+                gamma,
+                alpha,
+                range_sep_challenge,
+                logic_sep_challenge,
+                fixed_base_sep_challenge,
+                var_base_sep_challenge,
+                z_challenge,
+                v_challenge,
+                v_w_challenge,
+                u_challenge,
+            ]);
+
             // Compute zero polynomial evaluated at challenge `z`
             let z_h_eval = domain.evaluate_vanishing_polynomial(&z_challenge);
 
